@@ -1537,6 +1537,11 @@ def OP_CHECK_ADAPTER_SIG(tape: Tape, stack: Stack, cache: dict) -> None:
     m = stack.get()
     R = stack.get()
     sa = stack.get()
+    if len(sa) == nacl.bindings.crypto_core_ed25519_SCALARBYTES and sa[-1] & 0x80:
+        # bit 255 is ignored by the noclamp multiplication below but not by
+        # OP_DECRYPT_ADAPTER_SIG, so such an sa cannot decrypt to a valid sig
+        stack.put(b'\x00')
+        return
     sa_G = nacl.bindings.crypto_scalarmult_ed25519_base_noclamp(sa) # sa_G = G^sa
     RT = aggregate_points((R, T)) # R + T
     ca = clamp_scalar(H_small(RT, X, m)) # H(R + T || X || m)
